@@ -9,16 +9,18 @@ MCIsCompact == [n |-> FALSE, c |-> TRUE, an |-> FALSE, ac |-> FALSE, ac2 |-> FAL
 \* name index and group assignment: one plain journal fed by the source
 IdsA      == [M |-> {1, 2}, G |-> {1, 2}, N |-> {}, D |-> {}]
 NamesA    == [M |-> {"abx", "ay"}, G |-> {"a", "ab"}, N |-> {}, D |-> {}]
-IdsABig   == [M |-> {1, 2, 3}, G |-> {1, 2}, N |-> {1}, D |-> {}]
-NamesABig == [M |-> {"abx", "ay", "b"}, G |-> {"a", "ab"}, N |-> {"na", "nb"}, D |-> {}]
+\* three metrics competing for three names, one group
+IdsM3     == [M |-> {1, 2, 3}, G |-> {1}, N |-> {}, D |-> {}]
+NamesM3   == [M |-> {"abx", "ay", "b"}, G |-> {"a"}, N |-> {}, D |-> {}]
+\* smallest universe in which a group change rebuilds the name index while two metrics carry one name
+IdsR      == [M |-> {1, 2}, G |-> {1}, N |-> {}, D |-> {}]
+NamesR    == [M |-> {"abx", "ay"}, G |-> {"a"}, N |-> {}, D |-> {}]
 \* namespaces and groups renamed and their names reused
 IdsN      == [M |-> {1}, G |-> {1, 2}, N |-> {1, 2}, D |-> {}]
 NamesN    == [M |-> {"abx"}, G |-> {"a", "ab"}, N |-> {"na", "nb"}, D |-> {}]
 \* the chain: compaction, dashboards, restarts with truncated files
 IdsC      == [M |-> {1, 2}, G |-> {}, N |-> {}, D |-> {1}]
 NamesC    == [M |-> {"abx", "ay"}, G |-> {}, N |-> {}, D |-> {"da"}]
-IdsCBig   == [M |-> {1, 2}, G |-> {1}, N |-> {}, D |-> {1}]
-NamesCBig == [M |-> {"abx", "ay"}, G |-> {"a"}, N |-> {}, D |-> {"da"}]
 \* long random behaviours (simulation)
 IdsS      == [M |-> {1, 2, 3}, G |-> {1, 2}, N |-> {1, 2}, D |-> {1}]
 NamesS    == [M |-> {"abx", "ay", "b"}, G |-> {"a", "ab"}, N |-> {"na", "nb"}, D |-> {"da"}]
